@@ -5,7 +5,7 @@ import threading
 from .. import common, gen, parsing
 
 LEVEL = "proof"
-EXTRA_LEAN_MODULES = ["Luqum.Props.GenGlue"]   # the parse wrappers are pass-through (translated)
+EXTRA_LEAN_MODULES = ["Luqum.Props.GenGlue", "Luqum.Props.GenHandle"]   # the parse wrappers are pass-through (translated)
 RULE = ("2-4 worker threads, each parsing its own sequence of 1-3 distinct inputs (valid, syntax errors, illegal "
         "characters, malformed numerals) through luqum.thread.parse under a deterministic scheduler: a trace hook "
         "blocks every worker at each call of the PLY lexer's token() / HeadTailLexer.handle (thorough: also "
